@@ -176,6 +176,9 @@ def callbacks_part(ck: Check):
     a, b, q = (T.event(n, None, None) for n in ('a', 'b', 'q'))
     INF = float('inf')
     chk = [
+        ('existence-0', T.existence(b, 0.0), ('EXISTENCE', None, b, 0.0)), ('absence-0', T.absence(b, 0.0), ('ABSENCE', None, b, 0.0)),
+        ('response-0', T.response(a, b, 0.0), ('RESPONSE', a, b, 0.0)), ('prevention-0', T.prevention(a, b, 0.0), ('PREVENTION', a, b, 0.0)),
+        ('requirement-0', T.requirement(b, a, 0.0), ('REQUIREMENT', a, b, 0.0)),
         ('existence', T.existence(b, None), ('EXISTENCE', None, b, INF)), ('absence', T.absence(b, 2.0), ('ABSENCE', None, b, 2.0)),
         ('response', T.response(a, b, None), ('RESPONSE', a, b, INF)), ('prevention', T.prevention(a, b, 0.5), ('PREVENTION', a, b, 0.5)),
         ('requirement', T.requirement(b, a, None), ('REQUIREMENT', a, b, INF)),
@@ -370,7 +373,7 @@ def main() -> int:
             v, wit = lx.language_equals(model.terms[tname], strings)
             ck.query(v)
             if v == 'sat':
-                py = re.fullmatch(model.terms[tname].regexp.replace('\\b', ''), wit) is not None
+                py = re.fullmatch(re.sub(r'\(\?![^)]*\)', '', model.terms[tname].regexp.replace('\\b', '')), wit) is not None
                 ck.obligation(False)
                 ck.counterexample(f'terminal-language:{tname}', f'terminal {tname} {"accepts" if py else "rejects"} {wit!r}; documented set is {strings}', {'kind': 'terminal', 'name': tname, 'witness': wit})
             elif v == 'unknown':
@@ -496,7 +499,7 @@ def main() -> int:
     npr = 0
     for si, pi, deco in itertools.product(range(4), range(5), range(3)):
         for w in ((1, 1, 1, 1), (2, 2, 3, 2), (3, 1, 2, 4)):
-            for mt, unit in ((None, 's'), (2.0, 's'), (250.0, 'ms')):
+            for mt, unit in ((None, 's'), (2.0, 's'), (250.0, 'ms'), (0.0, 's'), (0.0, 'ms')):
                 spec = c11_sx.mk(si, pi, *w, deco, (mt / 1000.0 if unit == 'ms' and mt is not None else mt), None)
                 if props.property_verdict(spec) is not None:
                     continue
